@@ -91,6 +91,20 @@ Definition run_case15 (row : list Z) : list (list Z) :=
       let s := dec_sink k stop in
       if m =? 1 then let '(s', rest) := extend_loop items s in [[-1]; got s'; rest]
       else let '(s', cnt, rest) := feed_into_mut items s in [[nz cnt]; got s'; rest]
+  | 2 :: stop :: m :: n1 :: tl =>
+      (* ONE closure callback fed twice (by reference: feed_into_mut or extend), then called once more: the callback layer keeps no state of its
+         own, so the second feed is simply the feed function applied to the sink as the first feed left it.
+         output: [count 1] ; [count 2] ; everything the closure received ; never offered in feed 1 ; never offered in feed 2 ; [result of the last call] *)
+      let xs := firstn (zn n1) tl in
+      let ys := [900; 901; 902] in
+      let s0 := dec_sink 0 stop in
+      let feed := fun (items : list Z) (s : sink) =>
+        if m =? 1 then let '(s', rest) := extend_loop items s in (s', -1, rest)
+        else let '(s', cnt, rest) := feed_into_mut items s in (s', nz cnt, rest) in
+      let '(s1, c1, r1) := feed xs s0 in
+      let '(s2, c2, r2) := feed ys s1 in
+      let '(s3, go) := call s2 903 in
+      [[c1]; [c2]; got s3; r1; r2; [bz go]]
   | 1 :: n :: tl =>
       let ops := firstn (zn n) tl in
       let script := map (fun v => if v <? 0 then None else Some v) (skipn (zn n) tl) in
